@@ -144,6 +144,8 @@ pub struct Args {
     pub worker: Option<(usize, usize)>,
     pub replay: Option<String>,
     pub jobs: usize,
+    /// run exactly this case index in-process (replay of a worker crash)
+    pub only_case: Option<usize>,
     pub rest: Vec<String>,
 }
 impl Args {
@@ -153,7 +155,7 @@ impl Args {
 }
 
 pub fn parse_args() -> Args {
-    let mut a = Args { subcheck: String::new(), tier: "quick".into(), seed: 0, out: None, worker: None, replay: None, jobs: 0, rest: vec![] };
+    let mut a = Args { subcheck: String::new(), tier: "quick".into(), seed: 0, out: None, worker: None, replay: None, jobs: 0, only_case: None, rest: vec![] };
     let mut it = std::env::args().skip(1);
     while let Some(x) = it.next() {
         match x.as_str() {
@@ -162,6 +164,7 @@ pub fn parse_args() -> Args {
             "--out" => a.out = it.next(),
             "--replay" => a.replay = it.next(),
             "--jobs" => a.jobs = it.next().unwrap().parse().unwrap(),
+            "--only-case" => a.only_case = it.next().and_then(|x| x.parse().ok()),
             "--worker" => {
                 let w = it.next().unwrap();
                 let (k, n) = w.split_once('/').unwrap();
@@ -183,10 +186,19 @@ pub fn parse_args() -> Args {
 /// process after writing the partial result in a worker.
 pub fn run_cases(args: &Args, mut res: SubResult, total: usize, timeout: Duration, mut case: impl FnMut(usize, &mut SubResult)) -> SubResult {
     let t0 = Instant::now();
+    if let Some(idx) = args.only_case {
+        res.cur_rank = idx as u64;
+        case(idx, &mut res);
+        res.wall_s = t0.elapsed().as_secs_f64();
+        return res;
+    }
     if let Some((k, n)) = args.worker {
         pin_to_cpu(k);
+        let marker = format!("{}.cur", args.out.as_deref().unwrap_or("worker"));
         for idx in (0..total).filter(|i| i % n == k) {
             res.cur_rank = idx as u64;
+            // which case is running, should the subject take the whole process down (UB, abort, stack overflow)
+            let _ = std::fs::write(&marker, idx.to_string());
             case(idx, &mut res);
         }
         res.wall_s = t0.elapsed().as_secs_f64();
@@ -244,6 +256,22 @@ pub fn run_cases(args: &Args, mut res: SubResult, total: usize, timeout: Duratio
             }
         };
         if !status.success() {
+            use std::os::unix::process::ExitStatusExt;
+            if let Some(sig) = status.signal() {
+                // the subject killed the worker (segfault / abort): that is an observation about the
+                // code under test, reported as a violation of the case that was running; the cases
+                // this worker had not reached yet are reported as not covered
+                let cur: Option<usize> = std::fs::read_to_string(format!("{}.cur", out.display())).ok().and_then(|x| x.trim().parse().ok());
+                res.violation_ranked(
+                    format!("{}:crash[signal{sig}]", args.subcheck),
+                    format!("a worker process died with signal {sig} while running case {cur:?} of {}", args.subcheck),
+                    serde_json::json!({"engine": "?", "harness": "worker-crash", "subcheck": args.subcheck, "tier": args.tier, "seed": args.seed, "case": cur}),
+                    cur.unwrap_or(0) as u64,
+                );
+                res.cap(format!("worker died with signal {sig}: its remaining cases were not run"));
+                res.evaluations += 1;
+                continue;
+            }
             eprintln!("MACHINERY: worker of {} exited with {status}", args.subcheck);
             std::process::exit(2);
         }
